@@ -105,6 +105,18 @@ CHECKS['C12'] = dict(
          'for arbitrary longer strings rests on the per-instruction progress shown in (b). Findings F6b and F6c were repaired in /repo '
          '(fix: commits 3859cc9, 03d2a97).',
     technique=TECH)
+CHECKS['C11'] = dict(
+    text='compile_script runs on real source text whose operand payloads are symbolic: (A) every instruction x operand kind (d with symbolic '
+         'integers incl. the rejection boundary, x with symbolic bytes of length 0..300 and 65535/65536, s with symbolic ASCII) against a '
+         'reference encoding written from the documentation, inside "true <stmt> false" so swallowed or duplicated neighbours show, PUSH must '
+         'select the smallest push; (B) 150+ abstract block programs (IF / ELSE / hoisted IF / TRY / EXCEPT / DEF / LOOP, depth <= 2, thorough 3) '
+         'in brace and END_ style with statements after every construct against a reference block assembler; (C) every key of the alias and '
+         'opcode tables in upper / lower / mixed case compiles like the canonical name; (D) variables, macros, comptime; (E) concatenation.',
+    design_ref='DESIGN.md section 4 C11',
+    note='Trusted: SX engine incl. the placeholder-string model (witness replay of compile_script on every second path), z3, the reference '
+         'encodings in checks/c11.py. Structure and spellings are enumerated (finite), operands are solver variables. Finding F6a was repaired '
+         'in /repo (fix: commit a940d21).',
+    technique=TECH)
 NOT_APPLICABLE = {}
 NOTES = ('Exit codes of every check: 0 held on everything explored; 1 + VIOLATION line for a counterexample that was '
          'replayed on the real package and is not a listed known finding; 2 harness error / unsupported construct / '
